@@ -28,7 +28,10 @@ IsPrefixOf(a, b) == Len(a) <= Len(b) /\ a = SubSeq(b, 1, Len(a))
 (* a record groups all runs (one-shot / streaming schedules / decode kernels) of the SAME stream in the same
    mode, so the reference decode is computed once: g = [wrap, inp, dict, runs], run = [scn, api, calls, end, ...] *)
 JudgeRun(g, s, ref) ==
-  LET lenient == (IF "d" \in DOMAIN ref THEN ref.d.lenient ELSE FALSE) \/ (IF "lenient" \in DOMAIN ref.hdr THEN ref.hdr.lenient ELSE FALSE)
+  LET \* a decoder told that the window is 2^hist_bits (1..14) may refuse a stream with a longer distance; whatever it accepts must still be right
+      maxd == IF "d" \in DOMAIN ref THEN FoldLeft(LAMBDA m, b : MaxN(m, b.maxDist), 0, ref.d.blocks) ELSE 0
+      overWindow == "hist_bits" \in DOMAIN s /\ s.hist_bits \in 1..14 /\ maxd > P2(s.hist_bits)
+      lenient == (IF "d" \in DOMAIN ref THEN ref.d.lenient ELSE FALSE) \/ (IF "lenient" \in DOMAIN ref.hdr THEN ref.hdr.lenient ELSE FALSE) \/ overWindow
       ncalls == Len(s.calls)
       step(acc, k) ==
         LET c == s.calls[k]
